@@ -212,7 +212,7 @@ harnesses! {
     #[kani::unwind(5)]
     fn c13_lines_span_2() [] : "T|lines_span() vs pest; every string of 2 bytes over {LF,CR,'a'}, every span" { lines::<2>(b"\n\ra") }
     #[kani::unwind(5)]
-    fn c13_lines_span_2_lf() [] : "Q|lines_span() vs pest; every string of 2 bytes over {LF,'a'}, every span" { lines::<2>(b"\na") }
+    fn c13_lines_span_2_lf() [] : "X|lines_span() vs pest; every string of 2 bytes over {LF,'a'}, every span" { lines::<2>(b"\na") }
     #[kani::unwind(5)]
     fn c13_lines_str_2() [] : "Q|lines() first item vs pest; 2 bytes over {LF,CR,'a'}" { lines_str::<2>() }
     #[kani::unwind(6)]
